@@ -394,6 +394,8 @@ PROPS["C01"] = {
         {"maxdepth": 4, "budget": 16, "wrow": 0.35, "wlet": 0.25, "pC": 0.0, "pX": 0.0, "pbits": 0.12, "reads": 0.3, "shadow_out": 0.2},
         {"maxdepth": 3, "budget": 12, "wrow": 0.4, "wlet": 0.2, "pC": 0.03, "pX": 0.03, "pbits": 0.08, "reads": 0.5, "echo": 1.0, "fancy": True},
         {"maxdepth": 5, "budget": 20, "wrow": 0.3, "wlet": 0.3, "pC": 0.0, "pX": 0.0, "reads": 0.0},
+        # resetRandom / random between the statements, loop bounds and while conditions that read outputs
+        {"maxdepth": 3, "budget": 14, "wrow": 0.35, "wlet": 0.2, "reads": 0.7, "random": 0.5, "echo": 1.0},
     ]),
     "tags": RUN_TAGS + ("VARS",),
     "nontrivial": nontrivial_rows(2),
@@ -1267,8 +1269,25 @@ def line_oracle(case, trace):
             return
 
 
+def long_text_cases(prefix, seed, tier):
+    """rows on lines beyond 255 and 65535 (a line counter narrower than usize would wrap or saturate there)"""
+    rng = random.Random(seed ^ 0x10C6)
+    sigs = [{"name": "A", "typ": "I", "bits": 4, "default": "0"}, {"name": "Q", "typ": "O", "bits": 4, "default": "-"}]
+    cases = []
+    for i, n in enumerate([250, 253, 254, 65530, 65533, 65534, 65600 + rng.randrange(0, 5000)] + ([131070, 200000] if tier != "quick" else [])):
+        filler = []
+        for k in range(n):
+            filler.append("" if k % 97 else "# c")
+        lines = ["A Q"] + filler + ["1 X", "loop(i,2)", "(i) X", "end loop", "", "repeat(2) 3 X", "2 X"]
+        first = n + 2
+        cases.append({"id": "%s-long-%d" % (prefix, i), "kind": "run", "src": "\n".join(lines) + "\n", "sigs": sigs, "layout": [1], "table": [["1"]],
+                      "echo": 0, "wdefault": 0, "faults": [], "max": 50, "seed": 1,
+                      "gen": {"row_lines": [first, first + 2, first + 5, first + 6]}})
+    return cases
+
+
 PROPS["C19"] = {
-    "cases": lambda seed, tier: layout_pair_cases("c19", seed, 250 if tier == "quick" else 10000),
+    "cases": lambda seed, tier: layout_pair_cases("c19", seed, 250 if tier == "quick" else 10000) + long_text_cases("c19", seed, tier),
     "tags": ("PARSE", "PLINES", "ROW", "ITEM", "END"),
     "nontrivial": nontrivial_rows(1),
     "oracles": [line_oracle, no_panic_oracle],
@@ -1462,9 +1481,37 @@ def c15_pair_oracle(cases, impl):
                         break
 
 
+def c15_dig_cases(seed, tier):
+    """.dig documents with two or more bidirectional pins (signal order must not depend on a HashSet's iteration order):
+    loaded by the implementation, compared with the model's list (inputs in document order, retyped in place)"""
+    import gen_dig
+    want = 25 if tier == "quick" else 400
+    out = []
+    for c in gen_dig.cases((seed ^ 0xC15) & 0xFFFFFF, 8 * want, 0, 0):
+        if "tree" not in c or c.get("no_model"):
+            continue
+        desc = c.get("c16", {}).get("desc")
+        if not desc:
+            continue
+        ins = set(it["label"] for it in desc["items"] if it["k"] == "pin" and it["elem"] in ("In", "Clock") and it["label"])
+        hdr = set()
+        for it in desc["items"]:
+            if it["k"] == "test":
+                for l in (it["source"] or "").split("\n"):
+                    if l.split():
+                        hdr |= set(l.split())
+                        break
+        if len([n for n in hdr if n.endswith("_out") and n[:-4] in ins]) >= 2:
+            c = dict(c, id="c15-" + c["id"])
+            out.append(c)
+            if len(out) >= want:
+                break
+    return out
+
+
 PROPS["C15"] = {
-    "cases": c15_cases,
-    "tags": ("PARSE", "BIND", "STATIC", "NEW", "ROW", "SROW", "ITEM", "END"),
+    "cases": lambda seed, tier: c15_cases(seed, tier) + c15_dig_cases(seed, tier),
+    "tags": ("PARSE", "BIND", "STATIC", "NEW", "ROW", "SROW", "ITEM", "END", "DIG", "SIGNALS", "TEST", "MISSING"),
     "nontrivial": lambda c, t: any(x in ("ROW", "SROW", "REPARSE", "ITER") for x, _ in t),
     "oracles": [no_panic_oracle],
     "pair_oracles": [c15_pair_oracle],
@@ -1627,3 +1674,63 @@ def replay_cases(seed, tier):
 _c17_base = PROPS["C17"]["cases"]
 PROPS["C17"]["cases"] = lambda seed, tier: _c17_base(seed, tier) + replay_cases(seed, tier) + run_family("c17d", 100 if tier == "quick" else 4000, 0, [
     {"random": 0.6, "declare": 1.0, "declare_random": True, "maxdepth": 2, "reads": 0.3, "wrow": 0.5}])(seed, "quick")
+
+
+# ------------------------------------------------------------------ callers that keep iterating after a failed row
+
+def posterr_cases(prefix, seed, tier):
+    """programs whose variables matter AFTER a row that fails once the driver has been called (a virtual signal that
+    cannot be evaluated on that answer - division by zero, Z / X - or an answer that deviates from the first layout),
+    run by a caller that keeps calling next(): everything after the error item must be what the model says
+    (variables still visible, loop counters intact, outputs of the failed call, generator state)."""
+    n = 60 if tier == "quick" else 3000
+    rng = random.Random((seed << 8) ^ 0x9057)
+    cases = []
+    for i in range(n):
+        sigs = [{"name": "A", "typ": "I", "bits": 8, "default": "0"}, {"name": "Q", "typ": "O", "bits": 8, "default": "-"},
+                {"name": "R", "typ": "O", "bits": 8, "default": "-"}]
+        vcol = rng.random() < 0.6
+        decl = rng.choice(["8 / Q", "Q", "Q + R", "ite(Q, 1, 2)", "R % Q", "Q * 2"])
+        hdr = "A Q R" + (" V" if vcol else "")
+        x0 = rng.randrange(1, 9)
+        nloop = rng.randrange(2, 5)
+        tail = " X" if vcol else ""
+        lines = [hdr, "declare V = %s;" % decl, "let x = %d;" % x0]
+        body_kind = rng.randrange(0, 4)
+        if body_kind == 0:
+            lines += ["loop(i,%d)" % nloop, "(x+i) X X" + tail, "let x = x + 1;", "end loop", "(x) X X" + tail]
+        elif body_kind == 1:
+            lines += ["repeat(%d) (x+n) X X%s" % (nloop, tail), "(x) X X" + tail, "let y = x * 2;", "(y) X X" + tail]
+        elif body_kind == 2:
+            lines += ["let w = 0;", "while(w < %d)" % nloop, "(x+w) X X" + tail, "let w = w + 1;", "end while", "(w) X X" + tail]
+        else:
+            lines += ["loop(i,%d)" % nloop, "loop(j,2)", "(x+i+j) X X" + tail, "end loop", "let x = x + i;", "end loop", "(x) X X" + tail,
+                      "resetRandom;", "(x+1) X X" + tail]
+        ncalls = 10
+        bad = rng.randrange(1, 5)                 # the call (0 = constructor) that goes wrong
+        table = []
+        for k in range(ncalls):
+            q = str(rng.randrange(1, 9))
+            r = str(rng.randrange(1, 9))
+            table.append([q, r])
+        faults = []
+        how = rng.randrange(0, 4)
+        if how == 0:
+            table[bad][0] = "0"                 # division / remainder by zero in the declared expression (where it divides)
+        elif how == 1:
+            table[bad][0] = rng.choice(["Z", "X"])
+        elif how == 2:
+            faults = [(bad, rng.choice(["swap 0 1", "drop 0", "drop 1", "dup 0", "subst 0 2", "err 7"]))]
+        else:
+            table[bad][0] = "0"
+            faults = [(bad + 1, rng.choice(["swap 0 1", "drop 1", "err 9"]))]
+        cases.append({"id": "%s-pe-%d-%d" % (prefix, seed & 0xFFFF, i), "kind": "run", "src": "\n".join(lines) + "\n", "sigs": sigs,
+                      "layout": [1, 2], "table": table, "echo": 0, "wdefault": rng.randrange(0, 2), "faults": faults, "cont": 1,
+                      "max": 200, "seed": rng.randrange(1, 1 << 31)})
+    return cases
+
+
+for _p in ("C01", "C04", "C13", "C14", "C18"):
+    PROPS[_p]["cases"] = (lambda base, pref: (lambda seed, tier: base(seed, tier) + posterr_cases(pref, seed, tier)))(PROPS[_p]["cases"], _p.lower())
+    PROPS[_p]["rule"] = PROPS[_p]["rule"] + "; plus the post-error family: programs with variables, loops and a declared signal whose evaluation fails on one particular driver answer " \
+                                           "(division by zero, Z/X) or whose driver deviates once, run by a caller that keeps calling next() after the error item"
